@@ -60,6 +60,7 @@ def step (st : DState) (line : String) : DState × String × String :=
     else if fam == "crash" then let r := famCrash H kv; (st, r.1, r.2)
     else if fam == "xform" then let r := famXform kv; (st, r.1, r.2)
     else if fam == "idxser" then let r := famIdxSer kv; (st, r.1, r.2)
+    else if fam == "idxbig" then let r := famIdxBig kv; (st, r.1, r.2)
     else if fam == "inspect" then let r := famInspect H kv; (st, r.1, r.2)
     else if fam == "ro" then let r := famRO kv; ({ st with rosess := some r.1 }, r.2.1, r.2.2)
     else if fam == "roq" then
